@@ -1,4 +1,5 @@
 """Shared workload plumbing and trace checkers for the solver-level properties."""
+import os
 import warnings
 
 import numpy as np
@@ -73,7 +74,7 @@ def prepare(case, fault=None, record_sites=True, keep_args=True, policy="fresh")
         weights = cfgd.get("weights") or C.scaling_weights(rng, spec.n, spec.m, span=int(case.get("wspan", 6)))
     p.spec = spec
     p.weights = weights
-    p.inner = SpecProblem(spec, fmt=p.fmt, dup=p.dup, policy=policy)
+    p.inner = SpecProblem(spec, fmt=p.fmt, dup=p.dup, policy=case.get("policy", policy))
     p.rec = mon.RecordingProblem(p.inner, fault=fault, record_sites=record_sites, keep_args=keep_args)
     p.params = C.make_params(cfgd, spec, weights=weights)
     p.x0 = x0
@@ -443,3 +444,33 @@ def check_story(p, out, Rt):
                                 {"step": j, "dt_used": dt})
                             break
     return viol, stats
+
+
+def _repo_frames(ex):
+    import traceback
+
+    from . import boot
+
+    root = os.path.realpath(boot.REPO) + os.sep
+    return [f for f in traceback.extract_tb(ex.__traceback__) if os.path.realpath(f.filename).startswith(root)]
+
+
+def raised_in_repo(ex):
+    """Was the exception raised by repository code (innermost frame inside the repository)?"""
+    import traceback
+
+    from . import boot
+
+    tb = traceback.extract_tb(ex.__traceback__)
+    root = os.path.realpath(boot.REPO) + os.sep
+    return bool(tb) and os.path.realpath(tb[-1].filename).startswith(root)
+
+
+def repo_frame(ex):
+    fr = _repo_frames(ex)
+    if not fr:
+        return None
+    from . import boot
+
+    f = fr[-1]
+    return "%s:%s" % (os.path.relpath(os.path.realpath(f.filename), os.path.realpath(boot.REPO)), f.name)
